@@ -261,11 +261,13 @@ func compile(patterns []string, mode Mode) (*regexp.Regexp, error) {
 						r, w = utf8.DecodeRuneInString(pat)
 						switch r {
 						case utf8.RuneError:
-							b.WriteByte('\\')
-							if w == 0 {
-								break Pattern
+							if w <= 1 {
+								b.WriteByte('\\')
+								if w == 0 {
+									break Pattern
+								}
+								b.WriteString(pat[:w])
 							}
-							b.WriteString(pat[:w])
 						case '!', '-', '[', ']', '^', '\\':
 							b.WriteByte('\\')
 						}
@@ -281,11 +283,13 @@ func compile(patterns []string, mode Mode) (*regexp.Regexp, error) {
 				r, w = utf8.DecodeRuneInString(pat)
 				switch r {
 				case utf8.RuneError:
-					b.WriteByte('\\')
-					if w == 0 {
-						break Pattern
+					if w <= 1 {
+						b.WriteByte('\\')
+						if w == 0 {
+							break Pattern
+						}
+						b.WriteString(pat[:w])
 					}
-					b.WriteString(pat[:w])
 				case '\\', '.', '+', '*', '?', '(', ')', '|', '[', ']', '{', '}', '^', '$':
 					b.WriteByte('\\')
 				}
